@@ -419,3 +419,78 @@ def with_splits(sp, n=1):
     s['splits'] = n
     s['name'] = sp['name'] + f'+split{n}'
     return s
+
+
+# ---------------------------------------------------------------------------- schedulers, sensors
+
+def obj(name):
+    return {'kind': 'obj', 'name': name}
+
+
+def sched(name, schedule, cyclical=True, targets=()):
+    return {'kind': 'scheduler', 'name': name, 'schedule': [list(x) for x in schedule], 'cyclical': cyclical,
+            'targets': [list(x) for x in targets]}
+
+
+def timetable_well_posed(schedule, cyclical):
+    '''A cyclical timetable whose durations are all zero changes state infinitely often in one instant.'''
+    return not cyclical or any(d > 0 for d, _ in schedule)
+
+
+def timetables(durations=(0, 0.5, 1, 2), max_len=3):
+    states = ['a', 'b', 'a']
+    for n in range(1, max_len + 1):
+        for ds in itertools.product(durations, repeat=n):
+            yield [(d, states[i]) for i, d in enumerate(ds)]
+
+
+def SCHED(schedule, cyclical, prereg=(), K=0, horizon=6, second=None):
+    '''One scheduler, two plain objects; registrations before the run (prereg) and injected during it.'''
+    devs = [obj('o1'), obj('o2'), sched('A', schedule, cyclical, prereg)]
+    ops = [('reg', 'A', 'o1', 'default'), ('reg', 'A', 'o2', 'override'), ('unreg', 'A', 'o1'), ('unreg', 'A', 'o2')]
+    if second is not None:
+        devs.append(sched('B', second, True, [('o1', 'default')]))
+    tag = ','.join(f'{d}{s}' for d, s in schedule)
+    nm = f'SCHED[{tag}|{"cyc" if cyclical else "once"}|pre{len(prereg)}|{"2|" if second else ""}K{K}]'
+    return spec(nm, devs, horizon, ops, K)
+
+
+def SCHED_BLOCK(K=0, horizon=6, ops=None):
+    '''examples/OperatingSchedule.py in small: a shift schedule blocks the input of a machine.'''
+    devs = [src('S', 1), proc('M1', ['S'], 1), sink('K', ['M1']),
+            sched('A', [(1.5, 'on'), (1, 'off')], True, [('M1', 'default')]), obj('o2')]
+    if ops is None:
+        ops = [('unreg', 'A', 'M1'), ('reg', 'A', 'M1', 'default'), ('reg', 'A', 'o2', 'override'), ('fail', 'M1', 0), ('restore', 'M1')]
+    return spec(f'SCHEDBLOCK[K{K}]', devs, horizon, ops, K)
+
+
+def psensor(name, interval, probes, cap=None, callbacks=1):
+    return {'kind': 'psensor', 'name': name, 'interval': interval, 'probes': [list(p) for p in probes],
+            'data_capacity': cap, 'callbacks': callbacks}
+
+
+def osensor(name, processor, probes, n=0, cap=None, callbacks=1):
+    return {'kind': 'osensor', 'name': name, 'processor': processor, 'probes': list(probes), 'sensing_interval': n,
+            'data_capacity': cap, 'callbacks': callbacks}
+
+
+def cms(name, sensors):
+    return {'kind': 'cms', 'name': name, 'sensors': list(sensors)}
+
+
+def SENS(K=0, horizon=5, interval=1, cap=2, n=1, ocap=None, callbacks=2, cms_twice=True, second=None, ops=None):
+    '''A processor under an output-part sensor, periodic sensors on a mutable object, a CMS.'''
+    wo = {'x': [1, 1, 0]}
+    devs = [src('S', 1, qualities=[1, 0.5, 0.25, 0.75], values=[1, 2, 3]), proc('M1', ['S'], 1, wo=wo, dq=-0.25, auto_repair='x'),
+            sink('K', ['M1']), maint(1), obj('o1'),
+            psensor('P', interval, [('o1', 'x'), ('o1', 'n')], cap, callbacks),
+            osensor('O', 'M1', ['quality', 'id'], n, ocap, 1)]
+    names = ['P', 'O'] + (['P'] if cms_twice else [])
+    if second is not None:
+        devs.append(psensor('P2', second, [('o1', 'n')], 1, 1))
+        names.append('P2')
+    devs.append(cms('C', names))
+    if ops is None:
+        ops = [('bump', 'o1'), ('fail', 'M1', 0), ('wo', 'M1', 'x'), ('restore', 'M1')]
+    nm = f'SENS[i{interval},c{cap},n{n},oc{ocap},cb{callbacks}{",2nd" + str(second) if second else ""},K{K}]'
+    return spec(nm, devs, horizon, ops, K)
